@@ -7,7 +7,7 @@ import os
 HERE = os.path.dirname(os.path.abspath(__file__))
 COQ = os.path.join(os.path.dirname(HERE), "coq")
 ready = open(os.path.join(HERE, "ready.txt")).read().split()
-shared = {"Lists", "Run", "HZ", "Graph", "LD", "Domain", "Flow", "Exact", "Exact2", "Exact3", "Exact4", "Exact5"}
+shared = {"Lists", "Run", "HZ", "Graph", "LD", "Domain", "Flow", "Exact", "Exact2", "Exact3", "Exact4", "Exact5", "Exact6"}
 lines = ["-Q model PS", "-Q spec PS", "-Q proofs PS", "-Q props PS", "-Q extract PS",
          "-arg -w -arg -notation-overridden,-deprecated"]
 for d in ("model", "spec", "extract"):
